@@ -291,11 +291,18 @@ class HUpdate(Harness):
                     calls.append("failed")
                     raise np.linalg.LinAlgError("singular")
         gp = GP()
+        # the GP arrives with the training set of the previous fit (gpyreg keeps X, y, s2 as attributes): a stale
+        # neighbourhood in another order, which the refit has to replace whatever happens afterwards
+        gp.X, gp.y = fl.X[[4, 1, 5]].copy(), fl.Y[[4, 1, 5]].copy()
+        if noise:
+            gp.s2 = np.full((3, 1), 0.25)
         old_pr, old_h = gp.get_priors(), gp.get_hyperparameters()
         os_ = dict(lb=np.full((1, D), -3.0), ub=np.full((1, D), 3.0), plb=np.full((1, D), -1.0), pub=np.full((1, D), 1.0), scale=1.0,
                    periodic_vars=np.zeros((1, D), bool), mesh_size=0.25, search_mesh_size=2.0 ** -8)
         out = Out()
         err = None
+        expX, expY, _exps2 = rb.func(gptmod.get_grid_search_neighbors)(fl, np.zeros(D), gp, opts, os_)
+        expX, expY = np.array(expX, dtype=float), np.array(expY, dtype=float)
         try:
             g2, flag = f(gp, np.zeros(D), fl, opts, os_, None, False)
         except np.linalg.LinAlgError as e:
@@ -308,6 +315,10 @@ class HUpdate(Harness):
             if failed:
                 out.ob("failed_update_restores_previous_model", g2.priors == old_pr and np.array_equal(g2.hyp, old_h))
             out.ob("training_set_is_logged_data", g2.X.shape[0] == g2.y.shape[0] and all(any(np.array_equal(r, x) for x in fl.X) for r in g2.X))
+            # ... and it is the neighbourhood selected for THIS fit (nearest logged points, in distance order), also when the
+            # posterior update failed and the previous hyper-parameters were restored
+            out.ob("training_set_is_current_neighbourhood", np.array_equal(np.asarray(g2.X, dtype=float), expX)
+                   and np.array_equal(np.asarray(g2.y, dtype=float).reshape(-1), expY.reshape(-1)))
             if noise:
                 # the noise handed to the GP is the logged SD squared of the very row it accompanies
                 s2v = np.asarray(_raw(g2.s2)).reshape(-1)
@@ -364,6 +375,9 @@ class HPriors(Harness):
         r = np.asarray(_raw(r))
         out.tag = dict(n=int(r.size))
         out.ob("resampled_vector_has_one_entry_per_hyperparameter", r.size == len(names))
+        # C07: every random draw of the recovery path comes from the global generator the run seeded, never from a
+        # private generator created without a seed (OS entropy)
+        out.ob("recovery_draws_come_from_the_seeded_global_generator", not [s_ for s_ in getattr(eng.rng, "private", []) if s_ is None])
         for i, (nm, k) in enumerate(zip(names, kinds)):
             if k != "gauss":
                 out.ob("hyperparameters_without_gaussian_prior_kept", O.eq(r.ravel()[i], 0.25, 0.0))
